@@ -83,9 +83,11 @@ func c07ExecOn(c c07Case, live *saml2.SAMLServiceProvider) (keys []string, detai
 			case "garbage":
 				ks.Cert = []byte("this is not a DER certificate")
 			}
-			live.SetSPKeyStore(ks)
-		} else {
-			live.SetSPKeyStore(nil)
+			if p := guard(func() { live.SetSPKeyStore(ks) }); p != "" {
+				return []string{"C07/partB/panic"}, "SetSPKeyStore panicked: " + p, "panic"
+			}
+		} else if p := guard(func() { live.SetSPKeyStore(nil) }); p != "" {
+			return []string{"C07/partB/panic"}, "SetSPKeyStore(nil) panicked: " + p, "panic"
 		}
 		sp = live
 	}
